@@ -257,3 +257,66 @@ def run_witnesses(repo=None):
     finally:
         fcntl.flock(lock, fcntl.LOCK_UN)
         lock.close()
+
+
+# ---------------------------------------------------------------------------------------
+# cross-engine agreement (thorough tier): clippy's opt-in restriction lints as an independent, lexical list of panicking constructs
+
+CLIPPY_LINTS = ('unwrap_used', 'expect_used', 'panic', 'unimplemented', 'unreachable', 'todo', 'indexing_slicing', 'string_slice')
+
+def clippy_sites(repo=None):
+    """[(file, line, end_line, lint)] reported by `cargo +nightly clippy` with the restriction lints above switched on (nothing else),
+    cached by tree hash.  A lint run, not an execution."""
+    repo = repo or REPO
+    os.makedirs(WORK, exist_ok=True)
+    tag = 'repo' if os.path.realpath(repo) == '/repo' else hashlib.sha1(repo.encode()).hexdigest()[:8]
+    cfile = os.path.join(WORK, 'clippy-%s.json' % tag)
+    lock = open(os.path.join(WORK, 'lock-clippy'), 'w')
+    fcntl.flock(lock, fcntl.LOCK_EX)
+    try:
+        want = tree_hash(repo)
+        if os.path.exists(cfile):
+            with open(cfile) as fh:
+                r = json.load(fh)
+            if r.get('hash') == want:
+                return [tuple(x) for x in r['sites']], {'cached': True}
+        env = dict(os.environ, CARGO_NET_OFFLINE='true', CARGO_TARGET_DIR=os.path.join(WORK, 'target-clippy'))
+        env.pop('RUSTC_WRAPPER', None); env.pop('RUSTC_WORKSPACE_WRAPPER', None)
+        for pat in ('ldap3-*', 'lber-*'):
+            for p in glob.glob(os.path.join(WORK, 'target-clippy', 'debug', '.fingerprint', pat)):
+                shutil.rmtree(p, ignore_errors=True)
+        t0 = time.time()
+        cmd = ['cargo', '+nightly', 'clippy', '--offline', '--workspace', '--message-format=json', '--', '-A', 'clippy::all']
+        for l in CLIPPY_LINTS:
+            cmd += ['-W', 'clippy::' + l]
+        p = subprocess.run(cmd, cwd=repo, env=env, capture_output=True, text=True)
+        if p.returncode != 0:
+            raise BuildError('cargo clippy failed:\n' + p.stderr[-2000:])
+        sites = set()
+        for line in p.stdout.splitlines():
+            try:
+                m = json.loads(line)
+            except ValueError:
+                continue
+            if m.get('reason') != 'compiler-message':
+                continue
+            code = ((m['message'].get('code') or {}).get('code') or '')
+            if not code.startswith('clippy::'):
+                continue
+            for sp in m['message'].get('spans', []):
+                if sp.get('is_primary'):
+                    # the outermost expansion site, as the fact extractor records it
+                    while sp.get('expansion'):
+                        sp = sp['expansion']['span']
+                    fn = sp['file_name']
+                    pkg = os.path.relpath(os.path.dirname(m.get('manifest_path', os.path.join(repo, 'Cargo.toml'))), repo)
+                    if pkg not in ('.', '') and not fn.startswith(pkg):
+                        fn = os.path.join(pkg, fn)
+                    sites.add((fn, sp['line_start'], sp['line_end'], code[len('clippy::'):]))
+        sites = sorted(sites)
+        with open(cfile, 'w') as fh:
+            json.dump({'hash': want, 'sites': sites}, fh)
+        return sites, {'cached': False, 'clippy_s': round(time.time() - t0, 2)}
+    finally:
+        fcntl.flock(lock, fcntl.LOCK_UN)
+        lock.close()
